@@ -47,16 +47,15 @@ type pingVec struct {
 
 const c10DefTTL = 6
 
-// lastEventAge returns how long ago the newest hook event arrived.
+// lastEventAge returns how long ago the newest data-plane hook event arrived (routing chatter does not count).
 func lastEventAge(col *collector) time.Duration {
 	col.mu.Lock()
 	defer col.mu.Unlock()
-	if len(col.recs) == 0 {
+	if col.dpLast == 0 {
 		return time.Hour
 	}
-	t, _ := col.recs[len(col.recs)-1]["t"].(int64)
 
-	return time.Since(time.Unix(0, t))
+	return time.Since(time.Unix(0, col.dpLast))
 }
 
 func runPingTopo(res *Result, col *collector, tw *traceWriter, name string, vecs []pingVec, rng *rand.Rand, oddIDs bool, seed int64) {
@@ -124,6 +123,9 @@ func runPingTopo(res *Result, col *collector, tw *traceWriter, name string, vecs
 	expArrivals, expNotes := 0, 0
 	definite := func() bool { return lastEventAge(col) > 4*time.Second }
 	for _, v := range vecs {
+		if res.tooMany() {
+			return
+		}
 		src := m.Nodes[id[v.Src]].N
 		for i, h := range v.Hs {
 			exp := v.Pings[i]
@@ -335,6 +337,14 @@ type bouncer struct {
 	ttls    []int // TTL bytes of the frames for the phantom node, in arrival order
 	others  []peer.Frame
 	stopped chan struct{}
+	limit   int // hand back at most this many frames in total (a loop that does not end by itself is cut here)
+}
+
+// allow lets the bouncer hand back n more frames than it has seen so far (set before every case: budget + slack).
+func (b *bouncer) allow(n int) {
+	b.mu.Lock()
+	b.limit = len(b.ttls) + n
+	b.mu.Unlock()
 }
 
 func startBouncer(p *peer.Peer, names *advNames, ghost string, backVia string, back func([]byte) error) *bouncer {
@@ -357,6 +367,17 @@ func startBouncer(p *peer.Peer, names *advNames, ghost string, backVia string, b
 				continue
 			}
 			if f.Data.ToHash == peer.Hash(ghost) {
+				b.mu.Lock()
+				over := len(b.ttls) >= b.limit
+				b.mu.Unlock()
+				if over { // the loop should have ended long ago: keep the frame, the case is judged from the sequence seen
+					names.emit("h_absorb", p.ID, f.Data)
+					b.mu.Lock()
+					b.ttls = append(b.ttls, int(f.Data.TTL))
+					b.mu.Unlock()
+
+					continue
+				}
 				names.emit("h_bounce", p.ID, f.Data, "via", backVia)
 				_ = back(f.Raw)
 				b.mu.Lock()
@@ -489,7 +510,11 @@ func advLoop2(res *Result, col *collector, tw *traceWriter, budgets []int) {
 		return hookBarrier(col, p1, 20*time.Second) == nil && hookBarrier(col, p2, 20*time.Second) == nil
 	}
 	for _, h := range budgets {
+		if res.tooMany() {
+			return
+		}
 		// (i) the real node is the origin
+		b1.allow(h + 8)
 		t0, _ := b1.snapshot()
 		_, o2 := b2.snapshot()
 		n0 := obs.nNotes()
@@ -501,7 +526,7 @@ func advLoop2(res *Result, col *collector, tw *traceWriter, budgets []int) {
 
 			continue
 		}
-		got := obs.waitUntil(40*time.Second, func() bool { return len(obs.notes) > n0 })
+		got := obs.waitUntil(15*time.Second, func() bool { return len(obs.notes) > n0 })
 		if !settle() {
 			res.inconclusive("adv2: barrier timeout")
 
@@ -540,6 +565,7 @@ func advLoop2(res *Result, col *collector, tw *traceWriter, budgets []int) {
 		}
 		// (ii) a neighbour is the source: the packet arrives at R with TTL h
 		for _, notice := range []bool{false, true} {
+			b1.allow(h + 8)
 			t0, _ := b1.snapshot()
 			_, o2 := b2.snapshot()
 			f0 := countEv(col, "dp_forward")
@@ -553,7 +579,7 @@ func advLoop2(res *Result, col *collector, tw *traceWriter, budgets []int) {
 			_ = p2.SendRaw(peer.EncodeData(byte(h), "P2", "g", fromSvc, toSvc, pl))
 			u0 := countNoticeSends(col)
 			if h > 0 {
-				b1.waitTTL0(len(t0), 40*time.Second) // if the frame with TTL 0 never comes, the sequence check below says so
+				b1.waitTTL0(len(t0), 15*time.Second) // if the frame with TTL 0 never comes, the sequence check below says so
 			}
 			if !settle() { // R has handled the injected frame and (after the last hand-back) the frame with TTL 0
 				res.inconclusive("adv2: barrier timeout")
@@ -562,7 +588,7 @@ func advLoop2(res *Result, col *collector, tw *traceWriter, budgets []int) {
 			}
 			if !notice {
 				// positive wait: the notice frame for P2
-				deadline := time.Now().Add(40 * time.Second)
+				deadline := time.Now().Add(15 * time.Second)
 				for time.Now().Before(deadline) {
 					if _, o := b2.snapshot(); len(o) > len(o2) {
 						break
@@ -757,7 +783,11 @@ func advLoop3(res *Result, col *collector, tw *traceWriter, budgets []int) {
 		return link.AB.Pending() == 0 && link.BA.Pending() == 0
 	}
 	for _, h := range budgets {
+		if res.tooMany() {
+			return
+		}
 		for _, mode := range []string{"origin", "peer"} {
+			bp.allow(h/2 + 8)
 			tp0, _ := bp.snapshot()
 			_, oq0 := bq.snapshot()
 			n0 := obs.nNotes()
@@ -770,12 +800,12 @@ func advLoop3(res *Result, col *collector, tw *traceWriter, budgets []int) {
 
 					continue
 				}
-				obs.waitUntil(40*time.Second, func() bool { return len(obs.notes) > n0 })
+				obs.waitUntil(15*time.Second, func() bool { return len(obs.notes) > n0 })
 			} else {
 				d := &peer.Data{TTL: byte(h), FromHash: peer.Hash("Q"), ToHash: peer.Hash("g"), FromService: "qsrc", ToService: "svc", Payload: pl}
 				names.emit("h_inject", "Q", d, "at", "R1", "sha", sha8(pl))
 				_ = qq.SendRaw(peer.EncodeData(byte(h), "Q", "g", "qsrc", "svc", pl))
-				deadline := time.Now().Add(40 * time.Second)
+				deadline := time.Now().Add(15 * time.Second)
 				for time.Now().Before(deadline) {
 					if _, o := bq.snapshot(); len(o) > len(oq0) {
 						break
@@ -910,6 +940,9 @@ func cmdC10(args []string) {
 	}
 	sort.Strings(order)
 	for i, name := range order {
+		if res.tooMany() {
+			break
+		}
 		vs := byTopo[name]
 		sort.Slice(vs, func(a, b int) bool { return vs[a].Src+vs[a].Dst < vs[b].Src+vs[b].Dst })
 		runPingTopo(res, col, tw, name, vs, rng, (i+int(*seed))%2 == 0, *seed*1000+int64(i))
